@@ -549,11 +549,50 @@ func c04Scenario(r *Rand) *Workload {
 		{Name: "ThingAlias", T: &WType{K: "ref", Ref: "Thing"}},
 	}}
 	kind := Pick(r, []string{"envelope-on-scalar", "envelope-on-array", "unfold-twice", "compose-on-alias", "dataquery-not-a-struct", "dataquery-alias",
-		"template-loop:include", "template-loop:includeIfExists", "template-loop:template"})
+		"template-loop:include", "template-loop:includeIfExists", "template-loop:template", "veneer-chain", "veneer-chain", "veneer-chain"})
 	if forcedScenario != "" {
 		kind = forcedScenario
 	}
 	switch kind {
+	case "veneer-chain":
+		// two to four option rules aimed at one option of a struct that has a field of every
+		// shape: each rule meets what the previous one made of the option (arity, argument
+		// kinds, paths), with parameter lists that fit or not
+		cw := GenShapesWorkload(r)
+		field := Pick(r, []string{"title", "enabled", "labels", "switches", "flags", "names", "inners", "byName", "inner", "either", "eitherByName", "eithers"})
+		var y strings.Builder
+		y.WriteString("language: all\npackage: shapes\noptions:\n")
+		n := 2 + r.Intn(3)
+		for i := 0; i < n; i++ {
+			sel := "      by_name: Thing." + field + "\n"
+			switch Pick(r, []string{"rename_arguments", "rename_arguments", "map_to_index", "array_to_append", "unfold_boolean", "struct_fields_as_arguments", "struct_fields_as_options", "disjunction_as_options", "duplicate", "add_comments", "rename"}) {
+			case "rename_arguments":
+				names := []string{"first", "second", "third"}[:r.Intn(4)]
+				y.WriteString("  - rename_arguments:\n" + sel + "      as: [" + strings.Join(names, ", ") + "]\n")
+			case "map_to_index":
+				y.WriteString("  - map_to_index:\n" + sel)
+			case "array_to_append":
+				y.WriteString("  - array_to_append:\n" + sel)
+			case "unfold_boolean":
+				y.WriteString("  - unfold_boolean:\n" + sel + "      true_as: " + field + "\n      false_as: no" + field + "\n")
+			case "struct_fields_as_arguments":
+				y.WriteString("  - struct_fields_as_arguments:\n" + sel)
+			case "struct_fields_as_options":
+				y.WriteString("  - struct_fields_as_options:\n" + sel)
+			case "disjunction_as_options":
+				fmt.Fprintf(&y, "  - disjunction_as_options:\n%s      argument_index: %d\n", sel, r.Intn(3))
+			case "duplicate":
+				y.WriteString("  - duplicate:\n" + sel + "      as: " + field + "Copy\n")
+			case "add_comments":
+				y.WriteString("  - add_comments:\n" + sel + "      comments: ['one more']\n")
+			default:
+				y.WriteString("  - rename:\n" + sel + "      as: " + field + "\n")
+			}
+		}
+		cw.Files["cfg/veneers/chain.yaml"] = y.String()
+		cw.VeneerDirs = []string{"cfg/veneers"}
+		cw.Converters = r.Bool()
+		w = cw
 	case "template-loop:include", "template-loop:includeIfExists", "template-loop:template":
 		// a user template that reaches itself: every way of calling a template has to end in an error
 		w.Files["in/scn/schema.json"] = thing.RenderJSONSchema()
